@@ -224,7 +224,18 @@ func (p *c02) Run(c fw.Case) fw.Result {
 		if r.Chance(0.4) {
 			o.RefreshP, o.EnvSensitive = 0.5, true
 		}
-		scen = gen.Scen(r, o)
+		// size classes of what is persisted: small engine limits (so that counted things reach them), texts at and
+		// beyond the length limits, and long histories (many resumes through loops: paths of well over 100 steps)
+		o.SmallOptions = r.Chance(0.15)
+		o.LongTexts = r.Chance(0.12)
+		if r.Chance(0.04) {
+			o.LoopHeavy, o.MaxResumes, o.Localized, o.History = true, 60, false, true
+		}
+		if r.Chance(0.08) {
+			scen = gen.LoopScen(r) // the long-history family
+		} else {
+			scen = gen.Scen(r, o)
+		}
 	}
 	res.Fingerprint = scen.Fingerprint()
 	return p.runScen(res, scen, c, r)
